@@ -175,7 +175,7 @@ impl<'a> Gen<'a> {
             5 => Value::SmallUnsigned(Some(t as u16)),
             6 => Value::Unsigned(Some(t as u32)),
             7 => Value::BigUnsigned(Some(t as u64)),
-            8 => Value::Float(Some(t as f32 + 0.5)),
+            8 => Value::Float(Some((t % 1000) as f32 + if t % 2 == 0 { 0.1 } else { 0.5 })),
             9 => Value::Double(Some(t as f64 + 0.25)),
             10 => Value::Bytes(Some(Box::new(vec![(t % 256) as u8, 0, 39, 92]))),
             11 => Value::Char(Some(*self.rng.pick(&['a', '\'', 'é', '?', '\\', '\n', '"', '\t', '𝄞']))),
@@ -406,7 +406,11 @@ impl<'a> Gen<'a> {
             7 => {
                 let e = self.scalar(scope, k, depth - 1);
                 let n = self.rng.below(4);
-                let list = (0..n).map(|_| self.val_of(k)).collect();
+                let mut list: Vec<X> = (0..n).map(|_| self.val_of(k)).collect();
+                if !self.cfg.exec && self.cfg.is(Dialect::Postgres) && self.rng.chance(1, 5) {
+                    // enum casts as direct members of the list
+                    list = list.into_iter().map(|v| X::AsEnum("mood".into(), b(v))).collect();
+                }
                 X::In(b(e), self.rng.chance(1, 4), list)
             }
             8 => {
@@ -721,7 +725,16 @@ impl<'a> Gen<'a> {
             if keyed || !self.cfg.exec {
                 let bounds = [FrameBound::UnboundedPreceding, FrameBound::CurrentRow, FrameBound::UnboundedFollowing];
                 let numeric = [FrameBound::Preceding(1), FrameBound::Following(2)];
-                if self.rng.coin() {
+                if self.cfg.numeric_frames && self.rng.chance(1, 6) {
+                    // both bounds numeric, on the same side or around the current row (start never after end)
+                    let (s0, e0) = match self.rng.below(4) {
+                        0 => (FrameBound::Preceding(3), FrameBound::Preceding(1)),
+                        1 => (FrameBound::Following(1), FrameBound::Following(3)),
+                        2 => (FrameBound::Preceding(2), FrameBound::Following(1)),
+                        _ => (FrameBound::CurrentRow, FrameBound::Following(2)),
+                    };
+                    w.frame = Some((true, s0, Some(e0)));
+                } else if self.rng.coin() {
                     let start = if self.cfg.numeric_frames && self.rng.coin() { numeric[0].clone() } else { bounds[self.rng.below(2)].clone() };
                     let end = if self.rng.coin() {
                         Some(if self.cfg.numeric_frames && self.rng.coin() { numeric[1].clone() } else { bounds[1 + self.rng.below(2)].clone() })
@@ -1140,7 +1153,9 @@ impl<'a> Gen<'a> {
 
     pub fn update(&mut self, depth: usize) -> Upd {
         let t = self.dml_target();
-        let mut s = Upd { with: None, table: t.name.clone(), sets: vec![], from: vec![], wheres: vec![], orders: vec![], limit: None, returning: None };
+        let alias = if self.cfg.dialect.is_some() && self.rng.chance(1, 6) { Some(self.fresh("g")) } else { None };
+        let tq = alias.clone().unwrap_or_else(|| t.name.clone());
+        let mut s = Upd { with: None, table: t.name.clone(), alias, sets: vec![], from: vec![], wheres: vec![], orders: vec![], limit: None, returning: None };
         let settable: Vec<(String, K)> = t.cols.iter().filter(|c| !t.key.contains(&c.0)).cloned().collect();
         let ns = 1 + self.rng.below(2);
         let use_from = self.rng.chance(1, 4) && self.cfg.dialect.is_some();
@@ -1151,7 +1166,7 @@ impl<'a> Gen<'a> {
             s.from.push(self.from_of(&other, &rel));
             // join condition: target key = some int column of the other relation
             let oc = self.col_of(std::slice::from_ref(&rel), Some(K::I)).unwrap();
-            s.wheres.push(X::Bin(b(X::QCol(t.name.clone(), t.key[0].clone())), BinOper::Equal, b(oc)));
+            s.wheres.push(X::Bin(b(X::QCol(tq.clone(), t.key[0].clone())), BinOper::Equal, b(oc)));
             from_rel = Some(rel);
         }
         for i in 0..ns {
@@ -1227,7 +1242,8 @@ impl<'a> Gen<'a> {
 
     pub fn delete(&mut self, depth: usize) -> Del {
         let t = self.dml_target();
-        let mut s = Del { with: None, table: t.name.clone(), wheres: vec![], orders: vec![], limit: None, returning: None };
+        let alias = if self.cfg.dialect.is_some() && self.rng.chance(1, 6) { Some(self.fresh("g")) } else { None };
+        let mut s = Del { with: None, table: t.name.clone(), alias, wheres: vec![], orders: vec![], limit: None, returning: None };
         let nw = self.rng.pick_weighted(&[1, 5, 2]);
         for _ in 0..nw {
             s.wheres.push(self.bool_unqualified(&t));
@@ -1352,6 +1368,9 @@ pub fn clause_kinds(s: &Stmt) -> Vec<&'static str> {
             v.push("update");
             if !q.from.is_empty() {
                 v.push("update-from");
+                if q.alias.is_some() {
+                    v.push("update-from-aliased-target");
+                }
             }
             if !q.wheres.is_empty() {
                 v.push("where");
